@@ -141,6 +141,9 @@ func buildTx(prog []byte, mut string) (*types.TxData, error) {
 		d.Outputs = d.Outputs[:1]
 	case "in1args":
 		s1.Arguments = [][]byte{{8}}
+	case "another-transaction": // not a mutation of the specification: the transaction "m2" signatures may refer to
+		d.TimeRange = height + 999
+		out0.Amount -= 7
 	default:
 		return nil, fmt.Errorf("unknown transaction mutation %q", mut)
 	}
@@ -163,7 +166,7 @@ func newSigner(prog []byte) (*signer, error) {
 		return nil, err
 	}
 	tx := types.NewTx(*d)
-	d3, err := buildTx(prog, "out0amount")
+	d3, err := buildTx(prog, "another-transaction")
 	if err != nil {
 		return nil, err
 	}
@@ -314,7 +317,7 @@ func run(path string) {
 		cnt[e.Src+"_cases"]++
 		cls := fmt.Sprintf("%s:%dof%d:%s", e.Cs.Lock.Kind, e.Cs.Lock.Q, len(e.Cs.Lock.Keys), e.Cs.TxMut)
 		kinds[cls] = true
-		rep := map[string]interface{}{"case": e.Cs, "witness": shape(&e.Cs), "spec_authorised": e.Exp, "code_accepted": acc, "code_err": etxt, "panic": pan}
+		rep := map[string]interface{}{"export": json.RawMessage(doc), "case": e.Cs, "witness": shape(&e.Cs), "spec_authorised": e.Exp, "code_accepted": acc, "code_err": etxt, "panic": pan}
 		switch {
 		case pan != "":
 			report("panic:"+cls, "ValidateTx panicked ("+pan+") on "+string(doc), rep)
